@@ -7,9 +7,14 @@ Model: `Model/Bincode.lean` (the bincode 1.3 wire format used by the generated c
 Property theorems (names without the `aux_` prefix):
   decode_consumes_exactly, decode_encode, deserialize_ignores_trailing, encode_injective,
   recv_send_plain, recv_send_tagged, memberId_roundtrip, memberId_payload_roundtrip,
-  route_only_addressee, route_missing_key_panics, cluster_delivery, o2m_delivery, m2o_delivery
+  route_only_addressee, route_missing_key_panics, cluster_delivery, o2m_delivery, m2o_delivery,
+  generated_closures_use_model_config (tie to networking.rs through Gen/Networking.lean),
+  big_payload_roundtrip, rope_bytes, rope_len_ck (large payloads through compact descriptions),
+  demux_poll_polls_every_member, demux_poll_ready_iff_all_ready, demux_flush_healthy_member_delivered,
+  demux_close_healthy_member_delivered, demux_poll_order_independent, demux_deliver_despite_stall
 -/
 import HvNet.Model.Net
+import HvNet.Gen.Networking
 namespace HvNet
 
 
@@ -415,4 +420,397 @@ theorem m2o_delivery {S : Type} (t : Ty) (sender : Nat) (vals : List Val)
   apply aux_mapM'_some
   intro v hv
   simp [recvTagged, sendPlain, decode_encode _ _ (hw v hv), MemberId.fromTagless]
+/-! ## The configuration of the generated closures (tie to `networking.rs`) -/
+
+/-- Every `bincode::` call chain that `serialize_bincode_with_type` / `deserialize_bincode_with_type`
+put into the generated closures (re-extracted from the source into `Gen/Networking.lean` on every
+run) denotes the configuration the codec of `Model/Bincode.lean` implements: fixed-width ints,
+little endian, **no size limit**, trailing bytes allowed.  A changed option list (a limit, varint,
+rejecting trailing bytes, another terminal method) makes this `decide` fail. -/
+theorem generated_closures_use_model_config :
+    Gen.serChains ≠ [] ∧ Gen.deChains ≠ [] ∧
+    (∀ c ∈ Gen.serChains, Config.ofChain c = some (Dir.ser, Config.model)) ∧
+    (∀ c ∈ Gen.deChains, Config.ofChain c = some (Dir.de, Config.model)) := by decide
+
+/-- what the configuration means for the codec: ints have their fixed width whatever the value … -/
+example (w n : Nat) : (Val.u w n).encode.length = w := by simp [Val.encode, aux_encLE_length]
+/-- … and a limit or another option list is told apart -/
+example : Config.ofChain [.options, .withFixint, .withLimit, .deserializeFrom] ≠ some (Dir.de, Config.model) := by decide
+example : Config.ofChain [.options, .withFixint, .allowTrailing, .deserialize] = some (Dir.de, Config.model) := by decide
+
+/-! ## Large payloads (compact descriptions) -/
+
+theorem aux_repBytes_one (c : List Nat) : repBytes 1 c = c := by simp [repBytes]
+
+theorem aux_repBytes_length (n : Nat) (c : List Nat) : (repBytes n c).length = n * c.length := by
+  induction n with
+  | zero => simp [repBytes]
+  | succ n ih => simp [repBytes, ih, Nat.succ_mul]; omega
+
+theorem aux_rope_bytes_append (a b : Rope) : Rope.bytes (a ++ b) = Rope.bytes a ++ Rope.bytes b := by
+  induction a with
+  | nil => rfl
+  | cons p a ih => obtain ⟨n, c⟩ := p; simp [Rope.bytes, ih]
+
+theorem aux_encodeAll_append (a b : Vals) : (a.append b).encodeAll = a.encodeAll ++ b.encodeAll := by
+  match a with
+  | .nil => simp [Vals.append, Vals.encodeAll]
+  | .cons v vs => simp [Vals.append, Vals.encodeAll, aux_encodeAll_append vs b]
+
+theorem aux_length_append (a b : Vals) : (a.append b).length = a.length + b.length := by
+  match a with
+  | .nil => simp [Vals.append, Vals.length]
+  | .cons v vs => simp [Vals.append, Vals.length, aux_length_append vs b]; omega
+
+theorem aux_encodeAll_replicate (n : Nat) (v : Val) : (Vals.replicate n v).encodeAll = repBytes n v.encode := by
+  induction n with
+  | zero => rfl
+  | succ n ih => simp [Vals.replicate, Vals.encodeAll, repBytes, ih]
+
+theorem aux_length_replicate (n : Nat) (v : Val) : (Vals.replicate n v).length = n := by
+  induction n with
+  | zero => rfl
+  | succ n ih => simp [Vals.replicate, Vals.length, ih]
+
+/-- the rope of a compact value is the encoding of the value it stands for -/
+theorem rope_bytes (c : CVal) : c.rope.bytes = c.expand.encode := by
+  induction c with
+  | rep n v =>
+    simp [CVal.rope, CVal.expand, Rope.bytes, Val.encode, aux_repBytes_one, aux_encodeAll_replicate,
+      aux_length_replicate]
+  | srep n ch =>
+    simp [CVal.rope, CVal.expand, Rope.bytes, Val.encode, aux_repBytes_one, aux_repBytes_length]
+  | some c ih => simp [CVal.rope, CVal.expand, Rope.bytes, Val.encode, aux_repBytes_one, ih]
+  | variant k c ih => simp [CVal.rope, CVal.expand, Rope.bytes, Val.encode, aux_repBytes_one, ih]
+  | tupAt pre c post ih =>
+    simp [CVal.rope, CVal.expand, Rope.bytes, Val.encode, aux_repBytes_one, aux_rope_bytes_append, ih,
+      aux_encodeAll_append, Vals.encodeAll]
+  | vecAt pre c post ih =>
+    simp [CVal.rope, CVal.expand, Rope.bytes, Val.encode, aux_repBytes_one, aux_rope_bytes_append, ih,
+      aux_encodeAll_append, Vals.encodeAll, aux_length_append, Vals.length]
+
+theorem aux_ck_append (h : Nat) (a b : List Nat) : ck h (a ++ b) = ck (ck h a) b := by
+  induction a generalizing h with
+  | nil => rfl
+  | cons x a ih => simp [ck, ih]
+
+theorem aux_ckRep (h n : Nat) (c : List Nat) : ckRep h n c = ck h (repBytes n c) := by
+  induction n generalizing h with
+  | zero => rfl
+  | succ n ih => simp [ckRep, repBytes, aux_ck_append, ih]
+
+/-- length and checksum computed piece by piece (what the driver prints) are length and checksum
+of the byte string -/
+theorem rope_len_ck (r : Rope) (h : Nat) : r.len = r.bytes.length ∧ Rope.ck h r = ck h r.bytes := by
+  induction r generalizing h with
+  | nil => exact ⟨rfl, rfl⟩
+  | cons p r ih =>
+    obtain ⟨n, c⟩ := p
+    refine ⟨?_, ?_⟩
+    · simp [Rope.len, Rope.bytes, aux_repBytes_length, (ih h).1]
+    · simp [Rope.ck, Rope.bytes, aux_ck_append, aux_ckRep, (ih _).2]
+
+theorem aux_wtAll_replicate (n : Nat) (v : Val) (t : Ty) (h : (n == 0 || v.wt t) = true) :
+    (Vals.replicate n v).wtAll t = true := by
+  induction n with
+  | zero => rfl
+  | succ n ih =>
+    simp at h
+    simp [Vals.replicate, Vals.wtAll, h]
+    cases n with
+    | zero => rfl
+    | succ m => exact ih (by simp [h])
+
+theorem aux_wtAll_append (a b : Vals) (t : Ty) (ha : a.wtAll t = true) (hb : b.wtAll t = true) :
+    (a.append b).wtAll t = true := by
+  match a with
+  | .nil => simpa [Vals.append] using hb
+  | .cons v vs =>
+    simp [Vals.wtAll] at ha
+    simp [Vals.append, Vals.wtAll, ha.1, aux_wtAll_append vs b t ha.2 hb]
+
+theorem aux_wtTup_prefix (pre ws : Vals) (ts rest : Tys) (hp : pre.wtPrefix ts = some rest)
+    (hw : ws.wtTup rest = true) : (pre.append ws).wtTup ts = true := by
+  match pre, ts with
+  | .nil, ts =>
+    simp [Vals.wtPrefix] at hp
+    subst hp
+    simpa [Vals.append] using hw
+  | .cons v vs, .cons t ts =>
+    simp only [Vals.wtPrefix] at hp
+    split at hp
+    · rename_i hv
+      simp [Vals.append, Vals.wtTup, hv, aux_wtTup_prefix vs ws ts rest hp hw]
+    · simp at hp
+  | .cons _ _, .nil => simp [Vals.wtPrefix] at hp
+
+theorem aux_encodeChar_cons (c : Nat) : ∃ b bs, encodeChar c = b :: bs := by
+  unfold encodeChar
+  split
+  · exact ⟨_, _, rfl⟩
+  · split
+    · exact ⟨_, _, rfl⟩
+    · split <;> exact ⟨_, _, rfl⟩
+
+theorem aux_allBytes_append (a b : List Nat) : allBytes (a ++ b) = (allBytes a && allBytes b) := by
+  induction a with
+  | nil => simp [allBytes]
+  | cons x a ih => simp [allBytes, ih, Bool.and_assoc]
+
+theorem aux_allBytes_encodeChar (c : Nat) (h : isScalar c = true) : allBytes (encodeChar c) = true := by
+  simp [isScalar] at h
+  unfold encodeChar
+  split
+  · simp [allBytes]; omega
+  · split
+    · simp [allBytes]; omega
+    · split
+      · simp [allBytes]; omega
+      · simp [allBytes]; omega
+
+theorem aux_allBytes_rep (n : Nat) (c : List Nat) (h : allBytes c = true) : allBytes (repBytes n c) = true := by
+  induction n with
+  | zero => rfl
+  | succ n ih => simp [repBytes, aux_allBytes_append, h, ih]
+
+theorem aux_utf8_rep (c : Nat) (hc : isScalar c = true) (n f : Nat) (hf : n ≤ f) :
+    utf8ValidFuel f (repBytes n (encodeChar c)) = true := by
+  induction n generalizing f with
+  | zero => simp [repBytes]; cases f <;> rfl
+  | succ n ih =>
+    obtain ⟨f', rfl⟩ : ∃ f', f = f' + 1 := ⟨f - 1, by omega⟩
+    have hd := aux_decodeChar_encodeChar c (repBytes n (encodeChar c)) hc
+    obtain ⟨b, bs, hb⟩ := aux_encodeChar_cons c
+    simp only [repBytes]
+    generalize repBytes n (encodeChar c) = tail at hd ih
+    rw [hb] at hd ⊢
+    simp only [List.cons_append] at hd ⊢
+    simp only [utf8ValidFuel, hd]
+    exact ih f' (by omega)
+
+/-- the typing check on compact values is sound for the values they stand for -/
+theorem aux_cwt_expand (c : CVal) (t : Ty) (h : c.wt t = true) : c.expand.wt t = true := by
+  induction c generalizing t with
+  | rep n v =>
+    cases t <;> simp [CVal.wt] at h
+    simp [CVal.expand, Val.wt, aux_length_replicate, h.2]
+    exact aux_wtAll_replicate n v _ (by simpa using h.1)
+  | srep n ch =>
+    cases t <;> simp [CVal.wt] at h
+    obtain ⟨hs, hl⟩ := h
+    obtain ⟨b, bs, hb⟩ := aux_encodeChar_cons ch
+    simp only [CVal.expand, Val.wt, Bool.and_eq_true, decide_eq_true_eq, aux_repBytes_length]
+    refine ⟨⟨aux_allBytes_rep _ _ (aux_allBytes_encodeChar ch hs), ?_⟩, hl⟩
+    unfold utf8Valid
+    apply aux_utf8_rep ch hs
+    rw [aux_repBytes_length, hb]
+    simp only [List.length_cons]
+    exact Nat.le_mul_of_pos_right n (by omega)
+  | some c ih =>
+    cases t <;> simp [CVal.wt] at h
+    simp [CVal.expand, Val.wt, ih _ h]
+  | variant k c ih =>
+    cases t with
+    | enm ts =>
+      simp [CVal.wt] at h
+      obtain ⟨h1, h2⟩ := h
+      simp only [CVal.expand, Val.wt, Bool.and_eq_true, decide_eq_true_eq]
+      refine ⟨h1, ?_⟩
+      cases hn : ts.nth k with
+      | none => simp [hn] at h2
+      | some t' =>
+        simp [hn] at h2
+        exact ih _ h2
+    | _ => simp [CVal.wt] at h
+  | tupAt pre c post ih =>
+    cases t with
+    | tup ts =>
+      simp only [CVal.wt] at h
+      split at h
+      · rename_i t' rest hp
+        simp at h
+        simp only [CVal.expand, Val.wt]
+        exact aux_wtTup_prefix pre _ ts _ hp (by simp [Vals.wtTup, ih _ h.1, h.2])
+      · simp at h
+    | _ => simp [CVal.wt] at h
+  | vecAt pre c post ih =>
+    cases t <;> simp [CVal.wt] at h
+    obtain ⟨⟨⟨h1, h2⟩, h3⟩, h4⟩ := h
+    simp only [CVal.expand, Val.wt, Bool.and_eq_true, decide_eq_true_eq, aux_length_append, Vals.length]
+    exact ⟨aux_wtAll_append _ _ _ h1 (by simp [Vals.wtAll, ih _ h2, h3]), h4⟩
+
+/-- Large payloads: for every compact description that type-checks — whatever the repeat count,
+i.e. whatever the size of the encoding — the bytes the driver accounts for (`rope`) are the
+encoding of the described value, and the receive closures (plain and member-id tagged) reconstruct
+exactly that value from them.  There is no size at which the receiver gives up. -/
+theorem big_payload_roundtrip {S : Type} (c : CVal) (t : Ty) (sender : Tagless) (h : c.wt t = true) :
+    sendPlain c.expand = c.rope.bytes ∧
+    recvPlain t c.rope.bytes = some c.expand ∧
+    recvTagged (Tag := S) t (sender, c.rope.bytes) = some (MemberId.fromTagless sender, c.expand) := by
+  have hw := aux_cwt_expand c t h
+  simp [sendPlain, recvPlain, recvTagged, rope_bytes, decode_encode _ _ hw]
+
+/-- a 200 KiB `Vec<u8>` inside a struct; a 3 MiB string -/
+example : (CVal.tupAt (.cons (.u 2 7) .nil) (.rep 204800 (.u 1 255)) .nil).wt
+    (.tup (.cons (.u 2) (.cons (.vec (.u 1)) .nil))) = true := by decide
+example : (CVal.tupAt (.cons (.u 2 7) .nil) (.rep 204800 (.u 1 255)) .nil).rope.len = 204810 := by decide
+example : (CVal.srep 1048576 0x20AC).rope.len = 3145736 := by decide
+
+/-! ## `DemuxMap` polling with stalled members -/
+
+section
+variable {κ ι : Type}
+
+theorem aux_foldPoll (f : MSink ι → Bool × MSink ι) (acc : Bool) (d : Demux κ ι) :
+    Demux.foldPoll f acc d =
+      (acc && d.all (fun p => (f p.2).1), d.map fun p => (p.1, (f p.2).2)) := by
+  induction d generalizing acc with
+  | nil => simp [Demux.foldPoll]
+  | cons p d ih =>
+    obtain ⟨k, s⟩ := p
+    simp [Demux.foldPoll, ih, Bool.and_assoc]
+
+/-- `poll_ready` / `poll_flush` / `poll_close` poll **every** member sink exactly once, whatever
+the other members answer: afterwards each member's sink is its own sink after one poll. -/
+theorem demux_poll_polls_every_member (d : Demux κ ι) :
+    (d.pollReady).2 = d.map (fun p => (p.1, (p.2.pollReady).2)) ∧
+    (d.pollFlush).2 = d.map (fun p => (p.1, (p.2.pollFlush).2)) ∧
+    (d.pollClose).2 = d.map (fun p => (p.1, (p.2.pollClose).2)) := by
+  simp [Demux.pollReady, Demux.pollFlush, Demux.pollClose, aux_foldPoll]
+
+/-- … and the answer is `Ready` only when all members answered `Ready` (and then it is). -/
+theorem demux_poll_ready_iff_all_ready (d : Demux κ ι) :
+    ((d.pollReady).1 = true ↔ ∀ p ∈ d, (p.2.pollReady).1 = true) ∧
+    ((d.pollFlush).1 = true ↔ ∀ p ∈ d, (p.2.pollFlush).1 = true) ∧
+    ((d.pollClose).1 = true ↔ ∀ p ∈ d, (p.2.pollClose).1 = true) := by
+  simp [Demux.pollReady, Demux.pollFlush, Demux.pollClose, aux_foldPoll, List.all_eq_true]
+
+/-- One member being `Pending` does not prevent the others from being flushed: a member whose own
+sink answers `Ready` to this flush has, after `DemuxMap::poll_flush`, an empty buffer and has
+received everything that was buffered for it — whatever the other members answer. -/
+theorem demux_flush_healthy_member_delivered (d : Demux κ ι) (k : κ) (s : MSink ι)
+    (hm : (k, s) ∈ d) (hr : (s.flush.next).1 = true) :
+    ∃ s', (k, s') ∈ (d.pollFlush).2 ∧ s'.buf = [] ∧ s'.delivered = s.delivered ++ s.buf := by
+  refine ⟨(s.pollFlush).2, ?_, ?_, ?_⟩
+  · rw [(demux_poll_polls_every_member d).2.1]
+    exact List.mem_map.mpr ⟨(k, s), hm, rfl⟩
+  · simp [MSink.pollFlush, hr]
+  · simp [MSink.pollFlush, hr]
+
+theorem demux_close_healthy_member_delivered (d : Demux κ ι) (k : κ) (s : MSink ι)
+    (hm : (k, s) ∈ d) (hr : (s.close.next).1 = true) :
+    ∃ s', (k, s') ∈ (d.pollClose).2 ∧ s'.buf = [] ∧ s'.delivered = s.delivered ++ s.buf ∧ s'.closed = true := by
+  refine ⟨(s.pollClose).2, ?_, ?_, ?_, ?_⟩
+  · rw [(demux_poll_polls_every_member d).2.2]
+    exact List.mem_map.mpr ⟨(k, s), hm, rfl⟩
+  · simp [MSink.pollClose, hr]
+  · simp [MSink.pollClose, hr]
+  · simp [MSink.pollClose, hr]
+
+/-- The `HashMap` iteration order is not observable: for two orders of the same members the
+answers agree and the resulting maps are again reorderings of each other. -/
+theorem demux_poll_order_independent (d d' : Demux κ ι) (hp : d.Perm d') :
+    (d.pollFlush).1 = (d'.pollFlush).1 ∧ ((d.pollFlush).2).Perm (d'.pollFlush).2 ∧
+    (d.pollClose).1 = (d'.pollClose).1 ∧ ((d.pollClose).2).Perm (d'.pollClose).2 ∧
+    (d.pollReady).1 = (d'.pollReady).1 ∧ ((d.pollReady).2).Perm (d'.pollReady).2 := by
+  have hall : ∀ (g : κ × MSink ι → Bool), d.all g = d'.all g := by
+    intro g
+    rw [Bool.eq_iff_iff]
+    simp only [List.all_eq_true]
+    exact ⟨fun h x hx => h x (hp.mem_iff.mpr hx), fun h x hx => h x (hp.mem_iff.mp hx)⟩
+  simp only [Demux.pollReady, Demux.pollFlush, Demux.pollClose, aux_foldPoll, Bool.true_and]
+  exact ⟨hall _, hp.map _, hall _, hp.map _, hall _, hp.map _⟩
+
+variable [DecidableEq κ]
+
+theorem aux_dstartSend_eq_map (d : Demux κ ι) (k : κ) (x : ι)
+    (hk : k ∈ d.map Prod.fst) (hn : (d.map Prod.fst).Nodup) :
+    d.startSend k x = some (d.map fun p => (p.1, if p.1 = k then p.2.startSend x else p.2)) := by
+  induction d with
+  | nil => simp at hk
+  | cons p rest ih =>
+    obtain ⟨k', s⟩ := p
+    simp only [List.map_cons, List.nodup_cons] at hn
+    by_cases e : k' = k
+    · subst e
+      simp only [Demux.startSend, if_true, List.map_cons]
+      have : rest.map (fun p => (p.1, if p.1 = k' then p.2.startSend x else p.2)) = rest := by
+        conv => rhs; rw [← List.map_id rest]
+        apply List.map_congr_left
+        intro p hp
+        have : p.1 ≠ k' := fun e => hn.1 (by rw [← e]; exact List.mem_map_of_mem hp)
+        simp [this]
+      rw [this]
+    · have hk' : k ∈ rest.map Prod.fst := by
+        simp only [List.map_cons, List.mem_cons] at hk
+        rcases hk with hk | hk
+        · exact absurd hk.symm e
+        · exact hk
+      simp [Demux.startSend, e, ih hk' hn.2]
+
+/-- pushing a list of items into one member sink -/
+def MSink.sendMany (s : MSink ι) (xs : List ι) : MSink ι := { s with buf := s.buf ++ xs }
+
+theorem aux_dsendAll_eq_map (items : List (κ × ι)) (d : Demux κ ι)
+    (hk : ∀ it ∈ items, it.1 ∈ d.map Prod.fst) (hn : (d.map Prod.fst).Nodup) :
+    d.sendAll items =
+      some (d.map fun p => (p.1, p.2.sendMany ((items.filter (fun it => it.1 = p.1)).map Prod.snd))) := by
+  induction items generalizing d with
+  | nil => simp [Demux.sendAll, MSink.sendMany]
+  | cons it items ih =>
+    obtain ⟨k, x⟩ := it
+    have h1 := aux_dstartSend_eq_map d k x (hk (k, x) (by simp)) hn
+    simp only [Demux.sendAll, h1]
+    have keys : (d.map fun p => (p.1, if p.1 = k then p.2.startSend x else p.2)).map Prod.fst = d.map Prod.fst := by
+      simp [List.map_map, Function.comp_def]
+    rw [ih _ (by rw [keys]; exact fun it h => hk it (by simp [h])) (by rw [keys]; exact hn)]
+    simp only [List.map_map, Option.some.injEq]
+    apply List.map_congr_left
+    intro p _
+    by_cases e : p.1 = k
+    · simp [e, MSink.sendMany, MSink.startSend]
+    · have e' : ¬ k = p.1 := fun h => e h.symm
+      simp [e, e', MSink.sendMany]
+
+theorem aux_pollFlush_fst (s : MSink ι) : (s.pollFlush).1 = (s.flush.next).1 := by
+  unfold MSink.pollFlush
+  split <;> simp_all
+
+/-- End to end over the polling interface: any list of addressed items is sent into a `DemuxMap`
+with distinct member keys, then `poll_flush` is called once.  Every member whose own sink is
+ready to flush has then received everything it had buffered plus exactly the items addressed to
+it, in order — regardless of which other members are stalled (`Pending`) and of where they sit in
+the iteration order; and the call reports `Ready` only if no member is stalled. -/
+theorem demux_deliver_despite_stall (items : List (κ × ι)) (d : Demux κ ι)
+    (hk : ∀ it ∈ items, it.1 ∈ d.map Prod.fst) (hn : (d.map Prod.fst).Nodup) :
+    ∃ d', d.sendAll items = some d' ∧
+      (∀ k s, (k, s) ∈ d → (s.flush.next).1 = true →
+        ∃ s', (k, s') ∈ (d'.pollFlush).2 ∧ s'.buf = [] ∧
+          s'.delivered = s.delivered ++ s.buf ++ (items.filter (fun it => it.1 = k)).map Prod.snd) ∧
+      ((d'.pollFlush).1 = true ↔ ∀ p ∈ d, (p.2.flush.next).1 = true) := by
+  refine ⟨_, aux_dsendAll_eq_map items d hk hn, ?_, ?_⟩
+  · intro k s hm hr
+    have hm' : (k, s.sendMany ((items.filter (fun it => it.1 = k)).map Prod.snd)) ∈
+        d.map (fun p => (p.1, p.2.sendMany ((items.filter (fun it => it.1 = p.1)).map Prod.snd))) :=
+      List.mem_map.mpr ⟨(k, s), hm, rfl⟩
+    obtain ⟨s', h1, h2, h3⟩ := demux_flush_healthy_member_delivered _ k _ hm' (by simpa [MSink.sendMany] using hr)
+    exact ⟨s', h1, h2, by simpa [MSink.sendMany, List.append_assoc] using h3⟩
+  · rw [(demux_poll_ready_iff_all_ready _).2.1]
+    constructor
+    · intro h p hp
+      have := h _ (List.mem_map.mpr ⟨p, hp, rfl⟩)
+      simpa [aux_pollFlush_fst, MSink.sendMany] using this
+    · intro h q hq
+      obtain ⟨p, hp, rfl⟩ := List.mem_map.mp hq
+      simpa [aux_pollFlush_fst, MSink.sendMany] using h p hp
+end
+
+/-- member 0 stalled forever, member 1 healthy: the flush is `Pending`, member 1 got its item -/
+example :
+    let d : Demux Nat Nat := [(0, { ready := ⟨[], true⟩, flush := ⟨[], false⟩, close := ⟨[], true⟩ }),
+                              (1, { ready := ⟨[], true⟩, flush := ⟨[], true⟩, close := ⟨[], true⟩ })]
+    (match d.sendAll [(1, 7), (0, 8)] with
+     | some d' => ((d'.pollFlush).1, (d'.pollFlush).2.map fun p => (p.1, p.2.buf, p.2.delivered))
+     | none => (true, [])) = (false, [(0, [8], []), (1, [], [7])]) := by decide
+
 end HvNet
